@@ -1645,6 +1645,13 @@ func c13ErrStep(err error) string {
 
 // c13Case is one evaluated document.
 type c13Case struct {
+	// Feature, FeatureWhere, RefBody and StripOdd belong to the YAML-feature
+	// cases (c13_yamlfeat_test.go).
+	Feature      string
+	FeatureWhere string
+	RefBody      []byte
+	StripOdd     bool
+
 	Seed      string
 	SeedBody  []byte
 	Muts      []c13Mut
@@ -1740,6 +1747,9 @@ func c13Eval(mig *configmigrate.Migrator, c *c13Case) (res *c13Result) {
 	witness := func(extra map[string]any) map[string]any {
 		w := map[string]any{"seed_document": c.Seed, "mutations": c.Muts, "sentinels_injected": c.Sentinels,
 			"document": c13BodyText(body)}
+		if c.Feature != "" {
+			w["yaml_feature"] = c.Feature + " at " + c.FeatureWhere
+		}
 		for k, v := range extra {
 			w[k] = v
 		}
@@ -1762,6 +1772,9 @@ func c13Eval(mig *configmigrate.Migrator, c *c13Case) (res *c13Result) {
 			ks = append(ks, m.Kind+":"+m.Path.Class())
 		}
 		if len(ks) == 0 {
+			if c.Feature != "" {
+				return "yaml-feature:" + c.Feature + ":" + c.FeatureWhere
+			}
 			if c.Raw {
 				return "document=" + strings.TrimPrefix(c.Seed, "raw:")
 			}
@@ -1905,6 +1918,9 @@ func c13Eval(mig *configmigrate.Migrator, c *c13Case) (res *c13Result) {
 	var oneDoc map[string]any
 	switch {
 	case one.Err != nil:
+		if c.Feature != "" {
+			res.events["yaml_feature_documents_rejected_with_content_intact_checked"]++
+		}
 		res.events["one_run_error"]++
 		res.classes["error-in:"+c13ErrStep(one.Err)]++
 		res.events["error_results_compared_with_input"]++
@@ -1972,6 +1988,30 @@ func c13Eval(mig *configmigrate.Migrator, c *c13Case) (res *c13Result) {
 			for _, l := range losses {
 				violate("not-preserved:"+l.where, "a setting that no pending step concerns was not preserved at "+l.where+": "+l.what,
 					map[string]any{"from_version": from, "result": c13BodyText(one.Body)})
+			}
+			if c.Feature != "" {
+				res.events["yaml_feature_documents_upgraded"]++
+				if c.RefBody != nil {
+					ref := c13Run(mig, c.RefBody, uint(c13Last))
+					res.events["migrate_calls"]++
+					var refDoc map[string]any
+					switch {
+					case ref.Panicked, ref.Err != nil:
+						res.unspec["yaml feature document upgrades but its feature-free reference does not (nothing asserted)"]++
+					case yaml.Unmarshal(ref.Body, &refDoc) != nil || refDoc == nil:
+					default:
+						got := c13DeepCopy(oneDoc)
+						if c.StripOdd {
+							got = c13StripOddKeys(got)
+						}
+						res.events["yaml_feature_results_compared_with_reference"]++
+						if d := c13FirstDiff(refDoc, got, ""); d != "" {
+							violate("yaml-feature:"+c.Feature+":setting-not-carried-over:"+d,
+								fmt.Sprintf("the document with the YAML feature %s (at %s) upgrades successfully, but its result differs from the result of the same document without the feature; first difference at %s", c.Feature, c.FeatureWhere, d),
+								map[string]any{"from_version": from, "result": c13BodyText(one.Body), "reference_document": c13BodyText(c.RefBody), "reference_result": c13BodyText(ref.Body)})
+						}
+					}
+				}
 			}
 			moved, nm, multi := c13CheckMoves(from, doc, oneDoc)
 			res.events["moved_values_compared_element_wise"] += nm
@@ -2326,11 +2366,30 @@ func TestVerifC13(t *testing.T) {
 			}
 		}
 	}
+	// Phase A4: YAML file-format features (c13_yamlfeat_test.go).
+	for _, s := range structured {
+		if !strings.HasPrefix(s.Name, "full@") {
+			continue
+		}
+		root := c13DecodeSeed(s)
+		from := c13StatedVersion(root)
+		if from < 0 || from >= c13Last {
+			continue
+		}
+		for _, c := range c13FeatureCases(s.Name, root, from, thorough) {
+			add(c)
+			if thorough {
+				c.SplitAll, c.MaxSplits = false, 4
+			}
+			rep.Event("yaml_feature_cases")
+			rep.Class("yaml-feature:" + strings.SplitN(c.Feature, ":", 2)[0])
+		}
+	}
 	rep.EventN("systematic_cases", nA2)
 
 	// Phase B: random mutations.
-	nRandom := verifkit.Pick(4000, 100000)
-	hashBudget := verifkit.Pick(60, 600)
+	nRandom := verifkit.Pick(3000, 100000)
+	hashBudget := verifkit.Pick(40, 600)
 	for i := 0; i < nRandom; i++ {
 		s := structured[rng.Intn(len(structured))]
 		root := c13DecodeSeed(s)
@@ -2457,6 +2516,9 @@ func TestVerifC13(t *testing.T) {
 		"documents_with_sentinels_compared":    200,
 		"golden_documents_loaded":              40,
 		"bcrypt_hashes_normalised":             2,
+		"yaml_feature_documents_upgraded":      200,
+		"yaml_feature_results_compared_with_reference": 200,
+		"yaml_feature_documents_rejected_with_content_intact_checked": 100,
 		"moved_values_compared_element_wise":   5000,
 		"documents_with_2plus_distinct_clients_upgraded_from_v5_or_older": 100,
 	}
